@@ -152,8 +152,14 @@ def check_cli(case) -> Result:
 @st.composite
 def cli_case(draw):
     c = draw(c01_case())
-    c["mode"] = draw(st.sampled_from(["file", "stdin", "outfile"]))
+    c["mode"] = draw(st.sampled_from(["file", "stdin", "stdin", "outfile"]))
     c["ndigits"] = 3
+    if "noise" not in c["feat"] and "<svg" in c["svg"]:
+        # every command-line case carries a comment and a processing instruction inside the root: each input route
+        # (file argument, stdin) has to strip them
+        i = c["svg"].index(">", c["svg"].index("<svg")) + 1
+        c["svg"] = c["svg"][:i] + "<!-- made by hand --><?editor v='1'?>" + c["svg"][i:]
+        c["feat"] = c["feat"] + ["noise"]
     return c
 
 
